@@ -31,6 +31,7 @@ pub struct W {
     pub remove_all: u32,
     pub remove_old: u32,
     pub tight_shrink: u32,
+    pub linger_full: u32,
     pub entry: u32,
     pub rawmut: u32,
     pub raw: u32,
@@ -80,6 +81,7 @@ fn base_w() -> W {
         remove_all: 1,
         remove_old: 3,
         tight_shrink: 2,
+        linger_full: 2,
         entry: 10,
         rawmut: 8,
         raw: 3,
@@ -130,6 +132,15 @@ pub fn profile(prop: Prop, thorough: bool) -> Profile {
             p.w.insert_many = 6;
             p.w.remove_many = 3;
             p.w.churn = 2;
+            // states in which an insertion could fall back to all-at-once work: an old table emptied
+            // by retain / replace_entry_with next to an exactly full main table
+            p.w.retain = 5;
+            p.w.remove_old = 5;
+            p.w.tight_shrink = 5;
+            p.w.linger_full = 5;
+            p.w.shrink = 4;
+            p.w.entry = 12;
+            p.w.rawmut = 10;
             p.w.clone = 1;
             p.w.with_cap = 0;
             p.w.from_iter = 0;
@@ -494,6 +505,7 @@ pub fn op_strategy(p: &Profile) -> BoxedStrategy<Op> {
     );
     add(w.remove_many, (slot(), 1u32..=many, any::<u16>()).prop_map(|(s, n, stride)| Op::RemoveMany { s, n, stride }).boxed());
     add(w.remove_all, slot().prop_map(|s| Op::RemoveAll { s }).boxed());
+    add(w.linger_full, slot().prop_map(|s| Op::LingerFull { s }).boxed());
     add(w.tight_shrink, (slot(), any::<bool>()).prop_map(|(s, over)| Op::TightShrink { s, over }).boxed());
     add(w.remove_old, (slot(), 0u8..5, prop_oneof![3 => Just(0u8), 2 => 1u8..12]).prop_map(|(s, how, keep)| Op::RemoveOld { s, how, keep }).boxed());
     add(w.entry, (slot(), keysel(), chain()).prop_map(|(s, k, chain)| Op::Entry { s, k, chain }).boxed());
